@@ -155,6 +155,22 @@ def run_cfg(chk, facts, cfg):
                 rc.region('x <= 0', paths, Domain(nf, {'x': (inf, Fraction(0), True, False)}), e_rej)
                 rc.region('x > 0', paths, Domain(nf, {'x': (Fraction(0), inf, True, True)}), e_acc)
                 rc.done(sample={'fn': alabel})
+                # the statement names -inf among the non-positive values: decided on the IEEE class (the real-mode regions
+                # above take every value for finite)
+                from ..absint import Env, const as av_const, feasible as av_feasible
+                env_ = Env()
+                env_.ref[X] = av_const('-inf')
+                probs_ = []
+                nfeas_ = 0
+                for p_ in paths:
+                    if av_feasible(p_.guard, env_) is None:
+                        continue
+                    nfeas_ += 1
+                    pr_ = e_rej(p_, [])
+                    if pr_:
+                        probs_.append(pr_)
+                chk.ob(key + ':neg-inf', 'E6 IEEE class', '%s rejects -inf with NonPositiveValue(-inf) and leaves the state unchanged' % alabel,
+                       bool(nfeas_) and not probs_, '; '.join(sorted(set(probs_))[:2]) or ('no feasible path' if not nfeas_ else ''), where)
                 cnt['guards'] += 1
             except (Unsupported, NotReal) as e:
                 chk.ob(key, 'E3-regions', alabel, None, 'undecided: %s' % e, where)
